@@ -526,16 +526,19 @@ fn mutants(ctx: &mut Ctx, r: &mut Rng, c: &Case, g: &[Nd], k: usize) {
 /// the same topology with re-drawn durations: exercises relinking decisions and ties
 fn redraw(r: &mut Rng, pre: &[Nd]) -> (Vec<Nd>, f64) {
     let mut h = pre.to_vec();
+    let n = h.len();
     let mode = r.usize(0, 3);
-    for (i, x) in h.iter_mut().enumerate() {
-        // the zero durations of the construction (start fakes, join fakes, end chain) stay zero
-        let structural_zero = x.ty == 2 && (i <= 1 || x.prev_alt != 0 || x.ttn == 0.0);
-        if structural_zero && !(mode == 3 && i > 1) { continue; }
-        x.ttn = match mode {
+    for i in 0..n {
+        let x = h[i];
+        // the zero durations of the construction stay zero: the two start nodes, join fakes (the node they lead
+        // to lists them as idx_prev_alt), the end chain and the end node
+        let structural_zero = i <= 1 || x.next == 0 || (x.ty == 2 && (x.next == n - 1 || pre[x.next].prev_alt == i));
+        if structural_zero { continue; }
+        h[i].ttn = match mode {
             0 => r.range(0, 6) as f64 * 16.0,          // many ties, zeros
             1 => r.range(1, 4000) as f64 * 0.125,      // dyadic, exact sums
             2 => r.f64_in(0.0, 500.0),                 // arbitrary doubles
-            _ => r.range(0, 3) as f64,                 // tiny integers, also on join fakes
+            _ => r.range(0, 3) as f64,                 // tiny integers: ties everywhere
         };
     }
     let depart = *r.pick(&[0.0, 0.0, 60.0, 1024.0, 3599.5]);
